@@ -129,11 +129,13 @@ example : (ltAt exZone 1720000000).off = -18000 ∧ (ltAt exZone 0).off = -21600
 
 /-- the rule code, all four hemisphere/sign branches and the equal-offset case: whenever the two rule
 transitions of the year are further apart than twice the offset jump, every wall-clock reading other
-than the two excluded boundary seconds is classified exactly (0, 1 or 2 occurrences under the
-year's step function; the two candidates distinct and earliest first) -/
+than the two excepted boundary seconds is classified exactly (0, 1 or 2 occurrences under the
+year's step function; the two candidates distinct and earliest first).  The two seconds are excepted
+only when the rule changes the offset (`std.off ≠ dst.off`): a rule that changes only the
+abbreviation / DST flag ends no skipped or repeated interval and has no excepted second. -/
 theorem rule_from_local_classifies (a : Alt) (hvS : ValidDay a.dstStart) (hvE : ValidDay a.dstEnd)
     (y ℓ : Int) (hsep : RuleSeparated a (wallStart a y) (wallEnd a y))
-    (hS : ℓ ≠ wallStart a y) (hE : ℓ ≠ wallEnd a y) :
+    (hS : a.std.off ≠ a.dst.off → ℓ ≠ wallStart a y) (hE : a.std.off ≠ a.dst.off → ℓ ≠ wallEnd a y) :
     Classifies (yearOff a (wallStart a y) (wallEnd a y)) ℓ (a.find_local_time_type_from_local y ℓ) ∧
     ∀ t, yearOff a (wallStart a y) (wallEnd a y) t = (if ruleDstIn a y t then a.dst else a.std).off :=
   ⟨rule_from_local_classifies' a hvS hvE y ℓ hsep hS hE, fun t => yearOff_eq a y t hsep⟩
@@ -141,8 +143,8 @@ theorem rule_from_local_classifies (a : Alt) (hvS : ValidDay a.dstStart) (hvE : 
 /-- round trip under a rule: the offset in force at `t` is among the candidates of `t`'s wall clock -/
 theorem rule_roundtrip (a : Alt) (hvS : ValidDay a.dstStart) (hvE : ValidDay a.dstEnd)
     (y t : Int) (hsep : RuleSeparated a (wallStart a y) (wallEnd a y))
-    (hS : t + yearOff a (wallStart a y) (wallEnd a y) t ≠ wallStart a y)
-    (hE : t + yearOff a (wallStart a y) (wallEnd a y) t ≠ wallEnd a y) :
+    (hS : a.std.off ≠ a.dst.off → t + yearOff a (wallStart a y) (wallEnd a y) t ≠ wallStart a y)
+    (hE : a.std.off ≠ a.dst.off → t + yearOff a (wallStart a y) (wallEnd a y) t ≠ wallEnd a y) :
     yearOff a (wallStart a y) (wallEnd a y) t ∈
       (a.find_local_time_type_from_local y (t + yearOff a (wallStart a y) (wallEnd a y) t)).toList.map (·.off) :=
   classifies_roundtrip _ _ _ (rule_from_local_classifies' a hvS hvE y _ hsep hS hE) t rfl
@@ -164,20 +166,22 @@ theorem same_month_rule_pinned_counterexample :
     a.find_local_time_type 1209600 = some a.std := by decide
 
 /-- the transition table (zones without a rule), ANY number of transitions: for a sorted table whose
-wall-clock windows are `WellSeparated`, every wall-clock reading other than the excluded boundary
-seconds `T + prevOff` yields None / Single / Ambiguous exactly when 0 / 1 / 2 instants of the zone's
-step function `offAt` read it — also at transitions that change only the abbreviation or DST flag —
-with the right offsets, the two candidates distinct and earliest first.
+wall-clock windows are `WellSeparated`, every wall-clock reading other than the excepted boundary
+seconds yields None / Single / Ambiguous exactly when 0 / 1 / 2 instants of the zone's
+step function `offAt` read it, with the right offsets, the two candidates distinct and earliest first.
+The excepted seconds (`NoBoundary'`) are exactly the property's: `T + prevOff` of the transitions that
+CHANGE the offset.  A transition that changes only the abbreviation or DST flag has no excepted second:
+the statement covers the very second at which it happens.
 (`InRange`: offsets are `i32`, transition times within ±2^62 so that no window saturates.) -/
 theorem from_local_classifies (z : Zone) (ℓ : Int) (hrule : z.rule = none) (hs : Sorted z.transitions)
-    (hsep : WellSeparated z) (hnb : NoBoundary z (typeAt z 0).off z.transitions ℓ)
+    (hsep : WellSeparated z) (hnb : NoBoundary' z (typeAt z 0).off z.transitions ℓ)
     (hr : InRange z z.transitions) :
     Classifies (offAt z) ℓ (z.find_local_time_type_from_local ℓ) :=
   from_local_classifies' z ℓ hrule hs hsep hnb hr
 
 /-- round trip on such a zone: converting an instant to wall-clock time and back returns it -/
 theorem roundtrip (z : Zone) (t : Int) (hrule : z.rule = none) (hs : Sorted z.transitions)
-    (hsep : WellSeparated z) (hnb : NoBoundary z (typeAt z 0).off z.transitions (t + offAt z t))
+    (hsep : WellSeparated z) (hnb : NoBoundary' z (typeAt z 0).off z.transitions (t + offAt z t))
     (hr : InRange z z.transitions) :
     offAt z t ∈ (z.find_local_time_type_from_local (t + offAt z t)).toList.map (·.off) :=
   classifies_roundtrip _ _ _ (from_local_classifies' z _ hrule hs hsep hnb hr) t rfl
@@ -188,7 +192,7 @@ def exTable : Zone :=
 
 example : Classifies (offAt exTable) (-1615140000 - 18000 + 1800) (.ambiguous ⟨-14400, true, none⟩ ⟨-18000, false, none⟩) := by
   have h := from_local_classifies exTable (-1615140000 - 18000 + 1800) rfl (by unfold Sorted exTable; decide)
-    (by unfold WellSeparated; decide) (by unfold exTable NoBoundary NoBoundary NoBoundary NoBoundary; decide)
+    (by unfold WellSeparated; decide) (by unfold exTable NoBoundary' NoBoundary' NoBoundary' NoBoundary'; decide)
     ⟨fun i => by
         unfold typeAt exTable
         match i with
@@ -305,8 +309,8 @@ rule, under
   transition of the years around `T` is either at or before `T` with its window not above the last
   table window, or after `T` with its window strictly above it,
 `find_local_time_type_from_local` classifies every wall-clock reading other than the excepted
-boundary seconds (`T + prevOff` of each table transition; the rule's own start/end wall-clock second of
-the reading's year) exactly as the zone's step function `offAt` demands: None / Single / Ambiguous
+boundary seconds (`T + prevOff` of each table transition that changes the offset; the rule's own
+start/end wall-clock second of the reading's year, when the rule changes the offset) exactly as the zone's step function `offAt` demands: None / Single / Ambiguous
 when 0 / 1 / 2 instants read it, with the right offsets, the two candidates distinct and earliest first.
 `offAt` is the same function the composed lookup by instant is proved against (`offAt_ok` covers
 table, rule and the hand-over at the last transition in one statement). -/
@@ -314,8 +318,9 @@ theorem from_local_classifies_composed (z : Zone) (a : Alt) (last : Transition) 
     (hrule : z.rule = some (.alt a)) (hl : z.transitions.getLast? = some last)
     (hs : Sorted z.transitions) (hsep : WellSeparated z) (hj : JoinSeparated z)
     (hvS : ValidDay a.dstStart) (hvE : ValidDay a.dstEnd) (hy : RuleYearly a)
-    (hnb : NoBoundary z (typeAt z 0).off z.transitions ℓ)
-    (hS : ℓ ≠ wallStart a (naiveYear ℓ)) (hE : ℓ ≠ wallEnd a (naiveYear ℓ))
+    (hnb : NoBoundary' z (typeAt z 0).off z.transitions ℓ)
+    (hS : a.std.off ≠ a.dst.off → ℓ ≠ wallStart a (naiveYear ℓ))
+    (hE : a.std.off ≠ a.dst.off → ℓ ≠ wallEnd a (naiveYear ℓ))
     (hr : InRange z z.transitions) (hℓ : -36028797018963968 ≤ ℓ ∧ ℓ ≤ 36028797018963968) :
     Classifies (offAt z) ℓ (z.find_local_time_type_from_local ℓ) :=
   composed_alt' z a last ℓ hrule hl hs hsep hj hvS hvE hy hnb hS hE hr hℓ
@@ -325,9 +330,9 @@ theorem roundtrip_composed (z : Zone) (a : Alt) (last : Transition) (t : Int)
     (hrule : z.rule = some (.alt a)) (hl : z.transitions.getLast? = some last)
     (hs : Sorted z.transitions) (hsep : WellSeparated z) (hj : JoinSeparated z)
     (hvS : ValidDay a.dstStart) (hvE : ValidDay a.dstEnd) (hy : RuleYearly a)
-    (hnb : NoBoundary z (typeAt z 0).off z.transitions (t + offAt z t))
-    (hS : t + offAt z t ≠ wallStart a (naiveYear (t + offAt z t)))
-    (hE : t + offAt z t ≠ wallEnd a (naiveYear (t + offAt z t)))
+    (hnb : NoBoundary' z (typeAt z 0).off z.transitions (t + offAt z t))
+    (hS : a.std.off ≠ a.dst.off → t + offAt z t ≠ wallStart a (naiveYear (t + offAt z t)))
+    (hE : a.std.off ≠ a.dst.off → t + offAt z t ≠ wallEnd a (naiveYear (t + offAt z t)))
     (hr : InRange z z.transitions)
     (hℓ : -36028797018963968 ≤ t + offAt z t ∧ t + offAt z t ≤ 36028797018963968) :
     offAt z t ∈ (z.find_local_time_type_from_local (t + offAt z t)).toList.map (·.off) :=
@@ -338,7 +343,7 @@ table ends on) -/
 theorem from_local_classifies_fixed_rule (z : Zone) (l : Ltt) (last : Transition) (ℓ : Int)
     (hrule : z.rule = some (.fixed l)) (hl : z.transitions.getLast? = some last)
     (hs : Sorted z.transitions) (hsep : WellSeparated z) (hj : JoinSeparated z)
-    (hnb : NoBoundary z (typeAt z 0).off z.transitions ℓ) (hr : InRange z z.transitions) :
+    (hnb : NoBoundary' z (typeAt z 0).off z.transitions ℓ) (hr : InRange z z.transitions) :
     Classifies (offAt z) ℓ (z.find_local_time_type_from_local ℓ) :=
   composed_fixed' z l last ℓ hrule hl hs hsep hj hnb hr
 
@@ -346,7 +351,8 @@ theorem from_local_classifies_fixed_rule (z : Zone) (l : Ltt) (last : Transition
 step function over ALL years (not per calendar year) -/
 theorem from_local_classifies_rule_only (z : Zone) (a : Alt) (ℓ : Int) (hrule : z.rule = some (.alt a))
     (ht : z.transitions = []) (hvS : ValidDay a.dstStart) (hvE : ValidDay a.dstEnd) (hy : RuleYearly a)
-    (hS : ℓ ≠ wallStart a (naiveYear ℓ)) (hE : ℓ ≠ wallEnd a (naiveYear ℓ))
+    (hS : a.std.off ≠ a.dst.off → ℓ ≠ wallStart a (naiveYear ℓ))
+    (hE : a.std.off ≠ a.dst.off → ℓ ≠ wallEnd a (naiveYear ℓ))
     (hℓ : -36028797018963968 ≤ ℓ ∧ ℓ ≤ 36028797018963968) :
     Classifies (offAt z) ℓ (z.find_local_time_type_from_local ℓ) :=
   rule_only' z a ℓ hrule ht hvS hvE hy hS hE hℓ
@@ -397,7 +403,7 @@ example : Classifies (offAt exZoneUS) 1730597400 (.ambiguous usRule.dst usRule.s
   have h := from_local_classifies_composed exZoneUS usRule ⟨1710054000, 1⟩ 1730597400 rfl (by decide)
     (by unfold Sorted exZoneUS; decide) (by unfold WellSeparated; decide) (by unfold JoinSeparated; decide)
     (by unfold ValidDay usRule; decide) (by unfold ValidDay usRule; decide) usRule_yearly.1
-    (by unfold exZoneUS NoBoundary NoBoundary NoBoundary NoBoundary; decide) (by decide) (by decide)
+    (by unfold exZoneUS NoBoundary' NoBoundary' NoBoundary' NoBoundary'; decide) (by decide) (by decide)
     ⟨fun i => by
         unfold typeAt exZoneUS
         match i with
@@ -417,7 +423,7 @@ example : Classifies (offAt exZone) 1729992600 (.ambiguous exRule.dst exRule.std
   have h := from_local_classifies_composed exZone exRule ⟨1710000000, 1⟩ 1729992600 rfl (by decide)
     (by unfold Sorted exZone; decide) (by unfold WellSeparated; decide) (by unfold JoinSeparated; decide)
     (by unfold ValidDay exRule; decide) (by unfold ValidDay exRule; decide) exRule_yearly
-    (by unfold exZone NoBoundary NoBoundary NoBoundary NoBoundary; decide) (by decide) (by decide)
+    (by unfold exZone NoBoundary' NoBoundary' NoBoundary' NoBoundary'; decide) (by decide) (by decide)
     ⟨fun i => by
         unfold typeAt exZone
         match i with
@@ -428,9 +434,39 @@ example : Classifies (offAt exZone) 1729992600 (.ambiguous exRule.dst exRule.std
   have e : exZone.find_local_time_type_from_local 1729992600 = .ambiguous exRule.dst exRule.std := by decide
   rw [e] at h; exact h
 
--- London 1968-10-27 (BST -> BST, same offset, abbreviation change only): one result, not two
-example : (fromLocalLoop ⟨[], [⟨0, false, none⟩, ⟨3600, true, none⟩, ⟨3600, false, none⟩], [], none⟩
-    [⟨-37242000, 2⟩] ⟨3600, true, none⟩ (-37242000 + 3600)) = .ret (.single ⟨3600, false, none⟩) := by decide
+/-- London-like table: GMT → BST 1968-02-18, BST → BST (British Standard Time: same offset, DST flag and
+abbreviation change only) 1968-10-27, → GMT 1971-10-31 -/
+def lonZone : Zone :=
+  ⟨[⟨-59004000, 1⟩, ⟨-37242000, 2⟩, ⟨57722400, 0⟩], [⟨0, false, none⟩, ⟨3600, true, none⟩, ⟨3600, false, none⟩], [], none⟩
+
+-- London 1968-10-27: the theorem covers the very second `T + prevOff` of the offset-preserving
+-- transition (it is no excepted second under `NoBoundary'`): one result, the NEW type, not two
+example : Classifies (offAt lonZone) (-37242000 + 3600) (.single ⟨3600, false, none⟩) := by
+  have h := from_local_classifies lonZone (-37242000 + 3600) rfl (by unfold Sorted lonZone; decide)
+    (by unfold WellSeparated; decide) (by unfold lonZone NoBoundary' NoBoundary' NoBoundary' NoBoundary'; decide)
+    ⟨fun i => by
+        unfold typeAt lonZone
+        match i with
+        | 0 => decide
+        | 1 => decide
+        | 2 => decide
+        | (n + 3) => simp [List.getD]; decide,
+      by unfold lonZone; decide⟩
+  have e : lonZone.find_local_time_type_from_local (-37242000 + 3600) = .single ⟨3600, false, none⟩ := by decide
+  rw [e] at h; exact h
+
+-- the strict exclusion of every `T + prevOff` implies the property's (so the earlier, narrower form follows)
+example (z : Zone) (ℓ : Int) (h : NoBoundary z (typeAt z 0).off z.transitions ℓ) :
+    NoBoundary' z (typeAt z 0).off z.transitions ℓ := noBoundary'_of z ℓ _ _ h
+
+/-- a rule that changes only the abbreviation and DST flag (`AAA3BBB3,J60,J300`: equal offsets) -/
+def sameOffRule : Alt := ⟨⟨-10800, false, none⟩, ⟨-10800, true, none⟩, .julian1 60, 7200, .julian1 300, 7200⟩
+
+-- … has no excepted second at all: EVERY reading of the year is classified
+example (ℓ : Int) : Classifies (yearOff sameOffRule (wallStart sameOffRule 2024) (wallEnd sameOffRule 2024)) ℓ
+    (sameOffRule.find_local_time_type_from_local 2024 ℓ) :=
+  (rule_from_local_classifies sameOffRule (by unfold ValidDay sameOffRule; decide) (by unfold ValidDay sameOffRule; decide)
+    2024 ℓ (by unfold RuleSeparated; decide) (fun h => absurd rfl h) (fun h => absurd rfl h)).1
 
 /-- `wallSet` (the brute-force specification the harness mirrors) is exactly the set of instants
 whose wall-clock reading is `ℓ` -/
